@@ -120,10 +120,38 @@ class C05(Prop):
                         case = 'xs limits 4000 - - | eval %s | stack' % hexsrc(src)
                         cs.append(case)
                         self.word_expect[case] = ((v % (1 << w)).to_bytes(w // 8, order), src)
+        # the sized pack / read words at every width, both settings of the byte order: packing then reading returns the value reduced to
+        # the width (the read words tag their result with the width: compared after stripping)
+        self.rt_expect = {}
+        for w in range(1, 129):
+            for setting in ('little', 'big'):
+                for sg in ('u', 'i'):
+                    if sg == 'u' and w == 128:
+                        continue
+                    for v in rng.sample(int_pool(rng, w, 2), 2) + [0x0123456789abcdef0fedcba987654321 % (1 << w)]:
+                        src = '%s %d %d %s open-bitstr %d %s' % (setting, v, w, 'uint!' if sg == 'u' else 'int!', w, 'uint' if sg == 'u' else 'int')
+                        exp = v % (1 << w)
+                        if sg == 'i' and exp >= 1 << (w - 1):
+                            exp -= 1 << w
+                        case = 'xs limits 4000 - - | eval %s | stack' % hexsrc(src)
+                        cs.append(case)
+                        self.rt_expect[case] = (exp, src)
         return cs
 
     def group_check(self, cases, impl):
         fails, n = [], 0
+        for c, o in zip(cases, impl):
+            if c not in getattr(self, 'rt_expect', {}):
+                continue
+            n += 1
+            exp, src = self.rt_expect[c]
+            ou = o.split(' | ')
+            got = [t for t in ou[-1].strip('[] ').split(' ') if t]
+            if ou[-2] != 'ok':
+                continue        # a value the pack word refuses
+            val = got[-1].split(',')[0].replace('G(', '') if got else ''
+            if val != 'I' + hx(exp):
+                fails.append(('case: %s\nsource: %s\nresult: %s' % (c, src, o[:300]), '`%s` read back %s, expected %d' % (src, got, exp)))
         for c, o in zip(cases, impl):
             if c not in getattr(self, 'word_expect', {}):
                 continue
@@ -138,7 +166,7 @@ class C05(Prop):
             if got != ['B' + bits]:
                 fails.append(('case: %s\nsource: %s\nresult: %s' % (c, src, o[:400]),
                               '`%s` packed %s, the standard byte layout is %s' % (src, got, want.hex())))
-        return n, fails, [], dict(pack_word_layouts=n)
+        return n, fails, [], dict(pack_word_layouts_and_round_trips=n)
 
 
 PROP = C05()
